@@ -62,7 +62,7 @@ func devMain(args []string) {
 	dir := fs.String("dir", "/tmp/govc-dev", "scratch dir")
 	verbose := fs.Bool("v", false, "verbose")
 	onlyFail := fs.Bool("q", false, "print only failures")
-	order := fs.String("solvers", "z3-new,z3", "solver order")
+	order := fs.String("solvers", "z3-new-r0,z3-new,z3", "solver order")
 	doSmoke := fs.Bool("smoke", false, "run vacuity (smoke) checks")
 	fs.Parse(args)
 	t0 := time.Now()
@@ -88,9 +88,14 @@ func devMain(args []string) {
 			continue
 		}
 		found := false
+		if want == "@" { // everything under contract
+			for _, name := range P.lemmaOrder {
+				units = append(units, P.verifyLemma(P.lemmas[name]))
+			}
+		}
 		for _, fn := range P.repoFns {
 			k := P.fnKeys[fn]
-			if k == want || strings.HasSuffix(k, want) || (want == "*") {
+			if k == want || strings.HasSuffix(k, want) || (want == "*") || (want == "@" && len(P.specs[k]) > 0) {
 				found = true
 				specs := P.specs[k]
 				if len(specs) == 0 {
@@ -115,7 +120,7 @@ func devMain(args []string) {
 		smokes = append(smokes, u.VC.smokes...)
 	}
 	if *doSmoke {
-		scfg := runCfg{dir: *dir + "/smoke", timeout: 2, seed: 0, order: []string{"z3-new"}, workers: runtime.NumCPU(), keep: *keep}
+		scfg := runCfg{dir: *dir + "/smoke", timeout: 2, seed: 0, order: []string{"z3-new"}, workers: (runtime.NumCPU() + 1) / 2, keep: *keep}
 		dischargeAll(smokes, scfg)
 		for _, o := range smokes {
 			if o.Status != "discharged" {
@@ -124,7 +129,7 @@ func devMain(args []string) {
 		}
 		fmt.Printf("%d smoke checks\n", len(smokes))
 	}
-	cfg := runCfg{dir: *dir, timeout: *timeout, seed: 0, order: strings.Split(*order, ","), workers: runtime.NumCPU(), keep: *keep}
+	cfg := runCfg{dir: *dir, timeout: *timeout, seed: 0, order: strings.Split(*order, ","), workers: (runtime.NumCPU() + 1) / 2, keep: *keep}
 	t1 := time.Now()
 	dischargeAll(obls, cfg)
 	fmt.Printf("%d obligations in %.1fs\n", len(obls), time.Since(t1).Seconds())
